@@ -232,7 +232,7 @@ func sortedKeys[V any](m map[string]V) []string {
 // checkC17 runs all PROTO rules.
 func checkC17(r *Report) {
 	r.Level = "translation_validation"
-	r.Explain = "Static translation validation of the API artefacts: a proto3 parser written for this checker turns api/v3/api.proto and api/v3alpha/api.proto into descriptors; the descriptor protoc embedded in each api.pb.go is folded out of the Go syntax tree (a byte literal) and decoded, never executed. Rules: SUPERSET (every v3 descriptor element exists identically in v3alpha, HTTP bindings equal up to the version prefix), GEN-DESC (.proto == embedded descriptor, both directions, including order), GEN-GO (struct fields/tags, enum constants and name/value maps of api.pb.go == descriptor), GEN-GRPC (full-method constants, client and server interface method sets, ServiceDesc == service), SYSTEM-ID (constant-folded resolve.System identifiers == System enum numbers of /repo/api/v3/api.proto). Every element is enumerated, so the comparison is exhaustive."
+	r.Explain = "Static translation validation of the API artefacts: a proto3 parser written for this checker turns api/v3/api.proto and api/v3alpha/api.proto into descriptors; the descriptor protoc embedded in each api.pb.go is folded out of the Go syntax tree (a byte literal) and decoded, never executed. Rules: SUPERSET (every v3 descriptor element exists identically in v3alpha, HTTP bindings equal up to the version prefix), GEN-DESC (.proto == embedded descriptor, both directions, including order), GEN-GO (struct fields/tags, enum constants and name/value maps of api.pb.go == descriptor), GEN-GRPC (full-method constants, client and server interface method sets, ServiceDesc == service, and the bodies of the generated handlers and client stubs name their own method, message types and constant), SYSTEM-ID (constant-folded resolve.System identifiers == System enum numbers of /repo/api/v3/api.proto). Every element is enumerated, so the comparison is exhaustive."
 	r.Trusted = []string{"go/parser, go/types, go/constant", "google.golang.org/protobuf v1.36.6 wire decoder and descriptorpb", "the proto3 parser in /verif/tools/protoparse.go (cross-checked against protoc's own output by rule GEN-DESC)"}
 	r.Assume = []string{"wire compatibility is decided at the descriptor level (names, numbers, types, labels, oneof membership, streaming, HTTP rule); the behaviour of the server is out of scope"}
 	var vs []*apiVersion
@@ -723,6 +723,8 @@ func checkGenGRPC(r *Report, v *apiVersion) {
 		if got, want := descMethods[m.GetName()], "_"+sname+"_"+m.GetName()+"_Handler"; got != want {
 			probs = append(probs, fmt.Sprintf("ServiceDesc handler is %q, expected %q", got, want))
 		}
+		// the generated glue itself: handler and client stub refer to this rpc only
+		probs = append(probs, grpcGlueProblems(v.grpcFile, sname, m.GetName(), in, out)...)
 		if len(probs) > 0 {
 			r.bad("C17/GEN-GRPC", key, file, strings.Join(probs, "; "))
 		} else {
@@ -828,4 +830,81 @@ func checkSystemIDs(r *Report, v3 *apiVersion) {
 		}
 	}
 	r.floor("C17/SYSTEM-ID", "resolve.System constants", n, 4)
+}
+
+// grpcGlueProblems inspects the bodies protoc-gen-go-grpc emits for one rpc:
+// the server handler _S_M_Handler (decodes into *In, calls srv.(SServer).M on
+// both the direct and the interceptor path, asserts req.(*In), names
+// S_M_FullMethodName) and the client stub (c *sClient) M (allocates *Out,
+// invokes S_M_FullMethodName). A body that mentions another rpc's method,
+// request type or constant is reported.
+func grpcGlueProblems(file *ast.File, sname, method, in, out string) []string {
+	var probs []string
+	fullConst := sname + "_" + method + "_FullMethodName"
+	var handler, stub *ast.FuncDecl
+	for _, d := range file.Decls {
+		fd, ok := d.(*ast.FuncDecl)
+		if !ok || fd.Body == nil {
+			continue
+		}
+		if fd.Recv == nil && fd.Name.Name == "_"+sname+"_"+method+"_Handler" {
+			handler = fd
+		}
+		if fd.Recv != nil && fd.Name.Name == method && len(fd.Recv.List) == 1 {
+			if strings.HasSuffix(types.ExprString(fd.Recv.List[0].Type), "Client") || strings.HasSuffix(types.ExprString(fd.Recv.List[0].Type), "Client)") {
+				stub = fd
+			}
+		}
+	}
+	inspect := func(fd *ast.FuncDecl, what string, wantNew string) {
+		ast.Inspect(fd.Body, func(n ast.Node) bool {
+			switch x := n.(type) {
+			case *ast.SelectorExpr:
+				// srv.(SServer).X(...)
+				if ta, ok := x.X.(*ast.TypeAssertExpr); ok && types.ExprString(ta.Type) == sname+"Server" && x.Sel.Name != method {
+					probs = append(probs, fmt.Sprintf("%s calls %sServer.%s instead of %s", what, sname, x.Sel.Name, method))
+				}
+			case *ast.TypeAssertExpr:
+				if se, ok := x.Type.(*ast.StarExpr); ok {
+					if tn := types.ExprString(se.X); tn != in && tn != out {
+						probs = append(probs, fmt.Sprintf("%s asserts *%s, expected *%s", what, tn, in))
+					}
+				}
+			case *ast.CallExpr:
+				if id, ok := x.Fun.(*ast.Ident); ok && id.Name == "new" && len(x.Args) == 1 {
+					if tn := types.ExprString(x.Args[0]); tn != wantNew {
+						probs = append(probs, fmt.Sprintf("%s allocates %s, expected %s", what, tn, wantNew))
+					}
+				}
+			case *ast.Ident:
+				if strings.HasPrefix(x.Name, sname+"_") && strings.HasSuffix(x.Name, "_FullMethodName") && x.Name != fullConst {
+					probs = append(probs, fmt.Sprintf("%s names %s, expected %s", what, x.Name, fullConst))
+				}
+			}
+			return true
+		})
+	}
+	if handler == nil {
+		probs = append(probs, "server handler function not found")
+	} else {
+		inspect(handler, "the server handler", in)
+		nCalls := 0
+		ast.Inspect(handler.Body, func(n ast.Node) bool {
+			if se, ok := n.(*ast.SelectorExpr); ok {
+				if ta, ok := se.X.(*ast.TypeAssertExpr); ok && types.ExprString(ta.Type) == sname+"Server" && se.Sel.Name == method {
+					nCalls++
+				}
+			}
+			return true
+		})
+		if nCalls < 2 {
+			probs = append(probs, fmt.Sprintf("the server handler calls %s on %d of its 2 paths (direct and interceptor)", method, nCalls))
+		}
+	}
+	if stub == nil {
+		probs = append(probs, "client stub not found")
+	} else {
+		inspect(stub, "the client stub", out)
+	}
+	return probs
 }
